@@ -82,6 +82,8 @@ pub struct Out {
     viol: BTreeMap<String, Agg>,
     pending: Vec<(String, String)>,
     samples: Vec<(u64, Value)>,
+    /// a few explored traces written out (operation histories of the explicit-state explorer)
+    pub trace_samples: Vec<String>,
     pub stage: &'static str,
     beat: Arc<Beats>,
     tickc: u32,
@@ -113,6 +115,7 @@ impl Out {
             viol: BTreeMap::new(),
             pending: Vec::new(),
             samples: Vec::new(),
+            trace_samples: Vec::new(),
             stage: "",
             beat,
             tickc: 0,
@@ -476,7 +479,13 @@ fn result_json(
     let mut flags: BTreeMap<String, bool> = BTreeMap::new();
     let mut viol: BTreeMap<String, Agg> = BTreeMap::new();
     let mut samples: Vec<(u64, Value)> = Vec::new();
+    let mut trace_samples: Vec<String> = Vec::new();
     for o in outs {
+        for t in &o.trace_samples {
+            if trace_samples.len() < 8 {
+                trace_samples.push(t.clone());
+            }
+        }
         cases += o.cases;
         checks += o.checks;
         states += o.states;
@@ -543,6 +552,7 @@ fn result_json(
         "counters": counters,
         "flags": flags,
         "samples": samples.into_iter().map(|s| s.1).collect::<Vec<_>>(),
+        "trace_samples": trace_samples,
         "violations": viols,
         "wall_s": t0.elapsed().as_secs_f64(),
         "extra": extra(tier),
